@@ -223,7 +223,7 @@ def table_tok_cases(rnd, tier):
             continue
         rec = dict(kind="tok", n=n, recon=recon, bcl=bcl[0], bcr=bcr[0], mode=mode, model="table", flux="table",
                    cons=cons_token(mm, R, fl), perflux=0 if (bcl[0] != "per" or fl[0] == fl[-1]) else core.ULP_CAP,
-                   wall=0, unif=0, const=0, linear=0, shift=0, mirror=0, solve=0, implicit=0, scaling=0, unifsolve=0)
+                   wall=0, unif=0, const=0, linear=0, shift=0, mirror=0, solve=0, implicit=0, scaling=0, unifsolve=0, scalero=0)
         if mode == 1:
             rec["const"] = int(np.sum(pL != data[0]) + np.sum(pR != data[0]))
             rec["unif"] = 0 if bool(np.all(R == 0.0)) else core.ULP_CAP
